@@ -73,6 +73,7 @@ type Counterexample struct {
 	Trace    []int             `json:"trace"`
 	Notes    []string          `json:"notes,omitempty"`
 	Harness  string            `json:"harness"`
+	Weak     bool              `json:"weak,omitempty"`
 }
 
 // OkSample: a model of the path condition of a path on which every assertion was
@@ -84,6 +85,40 @@ type OkSample struct {
 	Asserts       map[string]int    `json:"asserts"`
 	Deterministic bool              `json:"deterministic"` // single goroutine, no schedule/map-order/sort-contract choice
 	OkIndex       int               `json:"ok_index"`
+}
+
+// exactBudget: at most 5000 exact-comparison attempts per assertion label and harness.
+func (ex *Explorer) exactBudget(label string) bool {
+	ex.mu.Lock()
+	defer ex.mu.Unlock()
+	if ex.exactTries == nil {
+		ex.exactTries = map[string]int{}
+	}
+	ex.exactTries[label]++
+	return ex.exactTries[label] <= 5000
+}
+
+// exactQuery asks the solver for the exact comparison; after two undecided answers for
+// a label the query is no longer tried (each costs a full timeout) and only the
+// cheap model search remains.
+func (in *Interp) exactQuery(label string, ex *Term) (Verdict, map[string]uint64) {
+	e := in.ex
+	e.mu.Lock()
+	if e.exactUnknown == nil {
+		e.exactUnknown = map[string]int{}
+	}
+	skip := e.exactUnknown[label] >= 2
+	e.mu.Unlock()
+	if skip {
+		return Unknown, nil
+	}
+	v, m, _ := in.check(in.tt.Not(ex), true)
+	if v == Unknown {
+		e.mu.Lock()
+		e.exactUnknown[label]++
+		e.mu.Unlock()
+	}
+	return v, m
 }
 
 // wantOkSample: the 1st..3rd ok path and every ok path whose ordinal is a power of two.
@@ -129,6 +164,8 @@ type Explorer struct {
 	stubsHit   map[string]int
 	samples    []PathResult
 	okSamples  []*OkSample
+	exactTries map[string]int
+	exactUnknown map[string]int
 	okSeen     int
 	stats      SolverStats
 	maxSteps   int
@@ -281,9 +318,20 @@ func (ex *Explorer) addCex(c *Counterexample) {
 	ex.mu.Lock()
 	defer ex.mu.Unlock()
 	key := c.Kind + "/" + c.Label
+	if c.Weak {
+		// a candidate that fails only the congruence form of a comparison: kept (the
+		// native replay decides) but it does not stop the search for a real one
+		key = "weak/" + c.Label
+		ex.cexCount[key]++
+		if ex.cexCount[key] <= 2 {
+			ex.cexs = append(ex.cexs, c)
+		}
+		return
+	}
 	ex.cexCount[key]++
 	if ex.cexCount[key] <= 3 {
-		ex.cexs = append(ex.cexs, c)
+		// candidates that falsify the exact comparison go first
+		ex.cexs = append([]*Counterexample{c}, ex.cexs...)
 	}
 }
 
@@ -708,11 +756,56 @@ func (in *Interp) assertProp(c *Term, label string) {
 		} else {
 			v, model, _ = in.check(nc, true)
 		}
+		weak := false
+		if ex := in.exact(c); v != Unsat && ex != c && !in.ex.exactBudget(label) {
+			weak = true
+		} else if v != Unsat && ex != c {
+			// the strong (congruence) form is not implied: decide the exact comparison.
+			// unsat: proven; sat: a real counterexample; unknown: keep the candidate
+			// found for the strong form (the native replay decides whether it is one).
+			in.stubsHit["exact comparison after congruence was inconclusive"]++
+			falseUnder := func(m map[string]uint64) bool {
+				if m == nil {
+					return false
+				}
+				r := in.tt.Eval(ex, m, map[int]*Term{})
+				return r.IsConst() && !r.BoolVal()
+			}
+			if ex.IsConst() && ex.BoolVal() {
+				v = Unsat
+			} else if v == Sat && falseUnder(model) {
+				// the candidate already falsifies the exact comparison
+			} else if v2, m2 := in.exactQuery(label, ex); v2 == Unsat {
+				v = Unsat
+			} else if v2 == Sat {
+				v, model = Sat, m2
+			} else {
+				// exact query not decided: let the solver propose other models of the strong
+				// failure (cheap) and evaluate the exact comparison on each
+				sup := in.hardSupport(ex)
+				for k := 1; k <= 5; k++ {
+					v3, m3, _ := in.check(in.tt.And(nc, in.diversify(k, sup)), true)
+					if os.Getenv("SYMGO_EXACTDBG") != "" {
+						fmt.Fprintf(os.Stderr, "  diversify k=%d sup=%d verdict=%v false=%v\n", k, len(sup), v3, falseUnder(m3))
+					}
+					if v3 == Sat && falseUnder(m3) {
+						v, model = Sat, m3
+						break
+					}
+				}
+			}
+			if os.Getenv("SYMGO_EXACTDBG") != "" {
+				fmt.Fprintf(os.Stderr, "EXACT %s: final=%v falseUnderModel=%v ex=%s\n", label, v, falseUnder(model), in.tt.expand(ex, 4))
+			}
+			if v != Unsat {
+				weak = !falseUnder(model)
+			}
+		}
 		if v != Unsat {
 			choice = 2
 			model = in.withRanges(model)
 			cex := &Counterexample{Label: label, Kind: "assert", Values: model, Kinds: in.varKinds,
-				Trace: append([]int(nil), in.trace...), Notes: append([]string(nil), in.notes...), Harness: in.cfg.Name}
+				Trace: append([]int(nil), in.trace...), Notes: append([]string(nil), in.notes...), Harness: in.cfg.Name, Weak: weak}
 			if v == Unknown {
 				cex.Kind = "unknown"
 				cex.Detail = "solver returned unknown for the negated assertion"
@@ -738,6 +831,67 @@ func (in *Interp) assertProp(c *Term, label string) {
 			in.model = m
 		}
 	}
+}
+
+// hardSupport: the input variables of those conjuncts of an exact comparison that
+// contain arithmetic the solvers do not decide (the places where congruence was used).
+func (in *Interp) hardSupport(ex *Term) map[int]bool {
+	sup := map[int]bool{}
+	seen := map[int]bool{}
+	var vars func(t *Term)
+	vars = func(t *Term) {
+		if seen[t.id] {
+			return
+		}
+		seen[t.id] = true
+		if t.op == OpVar {
+			sup[t.id] = true
+		}
+		for _, a := range t.args {
+			vars(a)
+		}
+	}
+	var conj func(t *Term)
+	conj = func(t *Term) {
+		if t.op == OpAnd {
+			conj(t.args[0])
+			conj(t.args[1])
+			return
+		}
+		if in.needsCong(t) {
+			vars(t)
+		}
+	}
+	conj(ex)
+	return sup
+}
+
+// diversify: side constraints that push the solver away from the all-zero style models
+// it prefers, on the given inputs: non-zero, odd, low bits 101, low bits 111, large.
+func (in *Interp) diversify(k int, sup map[int]bool) *Term {
+	tt := in.tt
+	r := tt.True
+	for _, v := range in.vars {
+		if v.sort.K != KBV || v.sort.W < 8 || !sup[v.id] {
+			continue
+		}
+		w := v.sort.W
+		var c *Term
+		switch k {
+		case 1:
+			c = tt.Not(tt.Eq(v, tt.Const(w, 0)))
+		case 2:
+			c = tt.Eq(tt.Bin(OpBAnd, v, tt.Const(w, 1)), tt.Const(w, 1))
+		case 3:
+			c = tt.Eq(tt.Bin(OpBAnd, v, tt.Const(w, 7)), tt.Const(w, 5))
+		case 4:
+			c = tt.Eq(tt.Bin(OpBAnd, v, tt.Const(w, 7)), tt.Const(w, 7))
+		default:
+			c = tt.Cmp(OpUlt, tt.Const(w, 100), v)
+		}
+		r = tt.And(r, c)
+	}
+	return r
 }
 
 func (in *Interp) withRanges(m map[string]uint64) map[string]uint64 {
